@@ -112,4 +112,5 @@ finally:
             meta["detection"] = det
             meta["applies_to_head"] = {"head": meta["base_commit"], "applies": True}
     json.dump(meta, open(mp, "w"), indent=1)
-    print(pid, outk, "confirmed" if meta.get("confirmed") else "NOT CONFIRMED", json.dumps(meta.get("detection", {})))
+    stale = " [PATCH DOES NOT APPLY TO HEAD - earlier evaluation kept]" if not meta.get("applies_to_head", {}).get("applies", True) else ""
+    print(pid, outk, ("confirmed" if meta.get("confirmed") else "NOT CONFIRMED") + stale, json.dumps(meta.get("detection", {})))
